@@ -2,8 +2,9 @@
 import signal
 
 import gen
+import mgen
 from common import freephil, enc, obj_j, call_j, err_j
-from props import _lay
+from props import _lay, _fetch
 
 LEVEL = "proof"
 MODULE = "Phil.Props.C16"
@@ -124,7 +125,7 @@ def typed_master(t):
 
 def run(ctx):
     rng = ctx.rng
-    n = ctx.scale(2500, 60000, 10000)
+    n = ctx.scale(6000, 100000, 20000)
     cases, reqs, impls = [], [], []
 
     def note(stream, text, out):
@@ -133,6 +134,23 @@ def run(ctx):
         if not isinstance(out, str):
             ctx.fail({"stream": stream, "text": text}, "%s: %s" % (stream, out))
 
+    # ---- well-formed random masters x generated sources through fetch / extract / format
+    for i in range(ctx.scale(400, 8000, 1500)):
+        if ctx.time_left() < 40:
+            break
+        tree, mt, srcs = _fetch.gen(rng, nested=(i % 3 == 2), deprecated=True)
+        m = freephil.parse(input_string=mt)
+
+        def fx():
+            w = m.fetch(sources=[freephil.parse(input_string=s) for s in srcs])
+            m.format(python_object=w.extract())
+            m.fetch_diff(source=w)
+        out = guarded(fx)
+        ctx.case(("master", mt, tuple(srcs)), nontrivial=bool(srcs))
+        ctx.count("master_fetch_%s" % (out if isinstance(out, str) else out[0]))
+        if not isinstance(out, str):
+            ctx.fail({"stream": "master", "master": mt, "sources": srcs}, "fetch/extract/format/diff: %s" % (out,),
+                     finding=["D9"] if _fetch.has_nested_further(tree) else None)
     for i in range(n):
         if ctx.time_left() < 25:
             ctx.notes.append("stopped early on time budget")
@@ -196,6 +214,16 @@ def run(ctx):
             cases, reqs, impls = [], [], []
     if reqs and ctx.mode != "impl-only":
         ctx.corr("parse", cases, reqs, impls)
+
+
+def finding_still_fails(f):
+    try:
+        freephil.parse(input_string=f["witness"]["master"]).fetch()
+    except (RuntimeError, freephil.Sorry):
+        return False
+    except Exception:
+        return True
+    return False
 
 
 def replay(payload):
